@@ -3,8 +3,9 @@ import copy, sqlite3
 from hypothesis import strategies as st
 
 from vf import findings, hyp
-from vf.gens import model
+from vf.gens import model, c08_shapes
 from vf.oracles import engine, planexec
+from vf.oracles.c08_strict import StrictInterp, UnknownQualifier
 from vf.props.c02 import site_of
 
 PROPERTY = 'C08'
@@ -236,6 +237,22 @@ def select_tables(sel):
             stack += [n.right, n.left]
         elif isinstance(n, ast.Identifier):
             out.append(n)
+    return out
+
+
+def cte_aliases(tree):
+    """Aliases under which the statement reads a common table expression (`FROM w AS x` -> x), lower case."""
+    from mindsdb_sql.parser import ast
+    from vf.oracles.struct import walk
+    nodes = list(walk(tree))
+    names = {str(c.name.parts[-1]).lower() for n in nodes if isinstance(n, (ast.Select, ast.Union, ast.Intersect, ast.Except))
+             for c in (getattr(n, 'cte', None) or [])}
+    out = set()
+    for n in nodes:
+        if isinstance(n, ast.Select):
+            for t in select_tables(n):
+                if t.alias is not None and len(t.parts) == 1 and str(t.parts[0]).lower() in names:
+                    out.add(str(t.alias.parts[-1]).lower())
     return out
 
 
@@ -501,7 +518,8 @@ def judge(case, col):
             conns[integ] = engine.connect(sub)
         return conns[integ]
 
-    it = planexec.Interp(fetch_conn)
+    pre = []
+    it = StrictInterp(fetch_conn)
     try:
         rel = it.run(plan)
     except planexec.NestedQuery as e:
@@ -509,6 +527,20 @@ def judge(case, col):
                                f'{e}; steps: {[type(s).__name__ for s in plan.steps]}', sql)]
         col.case((cat, sql), False, classes + ['step-not-executable'])
         return out
+    except UnknownQualifier as e:
+        # a JoinStep / QueryStep addresses a frame by a name that no result of the plan was given
+        feat = 'unknown-qualifier:' + ('alias-of-cte' if e.qualifier in cte_aliases(orig) else 'other')
+        pre = [findings.record('step-not-executable', 'qualifier-names-no-frame', sorted(set(tags) | {feat}), cfg,
+                               f'{e}; steps: {[type(s).__name__ for s in plan.steps]}', sql)]
+        classes += ['step-not-executable', 'defect:qualifier-names-no-frame', feat]
+        # the rows are judged all the same, under the lenient reading (the frame is found by the column name where
+        # that is unambiguous), so that this defect does not hide what else the plan does
+        it = planexec.Interp(fetch_conn)
+        try:
+            rel = it.run(plan)
+        except (planexec.InterpError, RecursionError):
+            col.case((cat, sql), False, classes)
+            return pre
     except planexec.InterpError as e:
         import os
         if os.environ.get('VF_INTERP_AS_FAILURE'):
@@ -522,14 +554,14 @@ def judge(case, col):
     got = rel.rows
     pf = sorted(set(plan_features(plan, orig)) | api_features(plan, cat))
     classes += ['plan:' + f for f in pf] + ['judged']
-    out = []
+    out = list(pre)
     d = verdict(truth, got, unlimited, meta)
     if d:
         # which pushed-down mechanism is responsible?  re-interpret the plan with mechanisms neutralised
         needs = 'unexplained'
         for what in (('semijoin',), ('limit',), ('semijoin', 'limit'), ('filters',), ('filters', 'limit')):
             try:
-                rel2 = planexec.Interp(fetch_conn).run(neutralise(plan, what, orig))
+                rel2 = type(it)(fetch_conn).run(neutralise(plan, what, orig))
             except planexec.InterpError:
                 continue
             if verdict(truth, rel2.rows, unlimited, meta) is None:
@@ -952,6 +984,17 @@ def cte_name_shapes(draw):
 @st.composite
 def cases(draw):
     extra = draw(st.integers(0, 39))
+    if extra in (6, 7):
+        c, catalog = draw(c08_shapes.order_item_shapes())
+        # more rows than LIMIT asks for
+        c['data'] = draw(model.table_data(DATA_TABLES, max_rows=6, min_rows=2))
+        c['catalog'] = catalog or draw(st.sampled_from(sorted(CATALOGS)))
+        return c
+    if extra == 8:
+        c = draw(c08_shapes.cte_alias_shapes())
+        c['data'] = draw(model.table_data(DATA_TABLES, max_rows=4, min_rows=1))
+        c['catalog'] = draw(st.sampled_from(sorted(CATALOGS)))
+        return c
     if extra < 4:
         shape = [api_select_shapes, api_select_shapes, clause_subselect_shapes, in_setop_shapes][extra]
         c = draw(shape())
